@@ -29,27 +29,24 @@ impl LiftingEnvironment {
     pub fn add_declaration(&mut self, declaration: &Declaration) { unimplemented!() }
 }
 // IR lifting of AST nodes (intermediate_representation/lifting.rs): opaque results (T3).
-// Assumed (T3): lifting a plain statement (not a block, loop, conditional or initialization block) never yields an
-// ir::Statement::IfThenElse — control statements are consumed by visit_statement itself.
+// (lifting of statements is the real `impl TryLift<()> for ast::Statement`, under contract in this unit)
 impl TryLift<()> for ast::Meta {
+    spec fn lift_pre(&self) -> bool { true }
     type IR = Meta; type Error = IRError;
     #[verifier::external_body] fn try_lift(&self, context: (), reports: &mut ReportCollection) -> Result<Meta, IRError> { unimplemented!() }
 }
-impl TryLift<()> for ast::Statement {
-    type IR = Statement; type Error = IRError;
-    #[verifier::external_body] fn try_lift(&self, context: (), reports: &mut ReportCollection) -> (r: Result<Statement, IRError>)
-        ensures r is Ok && is_plain(*self) ==> !is_branch(r->Ok_0)
-    { unimplemented!() }
-}
 impl TryLift<()> for ast::Expression {
+    spec fn lift_pre(&self) -> bool { true }
     type IR = Expression; type Error = IRError;
     #[verifier::external_body] fn try_lift(&self, context: (), reports: &mut ReportCollection) -> Result<Expression, IRError> { unimplemented!() }
 }
 impl TryLift<()> for ast::VariableType {
+    spec fn lift_pre(&self) -> bool { true }
     type IR = VariableType; type Error = IRError;
     #[verifier::external_body] fn try_lift(&self, context: (), reports: &mut ReportCollection) -> Result<VariableType, IRError> { unimplemented!() }
 }
 impl TryLift<&ast::Meta> for String {
+    spec fn lift_pre(&self) -> bool { true }
     type IR = VariableName; type Error = IRError;
     #[verifier::external_body] fn try_lift(&self, context: &ast::Meta, reports: &mut ReportCollection) -> Result<VariableName, IRError> { unimplemented!() }
 }
@@ -59,3 +56,13 @@ fn __h_singleton(x: usize) -> (r: HashSet<usize>) ensures r@ == set![x] { HashSe
 fn __h_union(a: &HashSet<usize>, b: &HashSet<usize>) -> (r: HashSet<usize>) ensures r@ == a@.union(b@) { a.union(b).cloned().collect() }
 #[verifier::external_body]
 fn __h_lift_dimensions(dimensions: &Vec<ast::Expression>, reports: &mut ReportCollection) -> IRResult<Vec<Expression>> { unimplemented!() }
+impl TryLift<()> for ast::AssignOp {
+    type IR = AssignOp; type Error = IRError;
+    spec fn lift_pre(&self) -> bool { true }
+    #[verifier::external_body] fn try_lift(&self, context: (), reports: &mut ReportCollection) -> Result<AssignOp, IRError> { unimplemented!() }
+}
+// the right-hand side of a substitution: the lifted expression, wrapped in an Update node when the target is accessed (opaque, T3)
+#[verifier::external_body]
+fn __h_lift_rhe(meta: &ast::Meta, var: &String, access: &Vec<ast::Access>, rhe: &ast::Expression, reports: &mut ReportCollection) -> IRResult<Expression> { unimplemented!() }
+#[verifier::external_body]
+fn __h_lift_log_args(args: &Vec<ast::LogArgument>, reports: &mut ReportCollection) -> IRResult<Vec<LogArgument>> { unimplemented!() }
